@@ -1,4 +1,5 @@
 import XixiKV.Proofs.DatatypeStep
+import XixiKV.Proofs.TransEq4
 /-!
 # C19 — the redis-style structures behave like their abstract types and survive restart
 
@@ -200,6 +201,129 @@ private def zclash : List (Cmd × Nat) :=
 example : ¬ ZNoClash [a, b, mc] := by decide
 #guard (runAll zclash KV.empty).2 == [.flag true, .flag true, .score "0".toUTF8, .flag false]
 #guard (Spec.stepAll zclash State.empty).2 == [.flag true, .flag true, .notFound, .flag true]
+
+/-! ## The codecs as they stand in /repo (translated from `datatype/meta.go`, `types.go` on every run)
+
+The model functions `encodeMeta`, `decodeMeta`, `hashKey`, `setKey`, `listKey`, `zmemKey`, `zscoreKey`,
+`encodeStr` and the decoding part of `get`, on which the refinement above rests, are not only mirrored by hand
+and tested differentially: `harness/cmd/trans` regenerates Lean definitions from the Go source of the
+corresponding functions on every run (`Generated/Trans.lean`, namespace `Generated.Trans.datatype`), and
+`Proofs/TransEq4.lean` proves them equal to the model functions on the machine ranges.  The receiver's fields
+are separate arguments of the generated definitions; `int64` fields (`expire`, `version`) are compared on
+`0 ≤ · < 2^63` (the model keeps them as `Nat`). -/
+
+/-- **the metadata codec as it stands in /repo.**
+    (1) `(*metadata).encode` = `encodeMeta` for every field value in its machine range
+        (`expire`, `version`: non-negative `int64`; `size`: `uint32`; `head`, `tail`: `uint64`);
+    (2) `decodeMetadata` returns what the model decodes whenever the model decodes at all (`decodeMeta buf = none`
+        iff the record is empty — Go panics at `buf[0]` — or one of the varints read overflows or is negative —
+        Go goes on with garbage numbers or panics on a negative slice index, `metaDecodePanics`);
+    (3) in particular the translated decoder reads back what the translated encoder writes, for every valid `Meta`;
+    (4) the byte counts / error codes `n` of the translated `binary.Uvarint`, from which the Go code computes the
+        slice indices, are the model's `uvarintLen`, from which `metaDecodePanics` is computed — on every input. -/
+theorem C19_translated_meta_codec :
+    (∀ m : Meta, m.expire < 2^63 → m.version < 2^63 → m.size < 2^32 → m.head < 2^64 → m.tail < 2^64 →
+        Generated.Trans.datatype.metadata_encode m.dataType.toNat (m.expire : Int) (m.version : Int) m.size m.head m.tail
+          = encodeMeta m) ∧
+    (∀ (buf : ByteArray) (m : Meta), decodeMeta buf = some m →
+        Generated.Trans.datatype.decodeMetadata buf = TransEq.goMeta m) ∧
+    (∀ m : Meta, m.Valid →
+        Generated.Trans.datatype.decodeMetadata
+          (Generated.Trans.datatype.metadata_encode m.dataType.toNat (m.expire : Int) (m.version : Int) m.size m.head m.tail)
+          = TransEq.goMeta m) ∧
+    (∀ b : ByteArray, (Generated.Trans.binary_Uvarint b).2 = uvarintLen b.data.toList) :=
+  ⟨fun m he hv hs hh ht => TransEq.trans_metadata_encode_eq m he hv hs hh ht,
+   fun buf m h => TransEq.trans_decodeMetadata_eq buf m h,
+   fun m h => TransEq.trans_decodeMetadata_encode m h,
+   fun b => TransEq.Uvarint_len b⟩
+
+/-- non-vacuity: the metadata of a two-element list created at time 300 is valid, and this is what the
+    translated encoder / decoder do with it -/
+private def mList : Meta :=
+  { dataType := tList, expire := 0, version := 300, size := 2, head := initialListMark - 1, tail := initialListMark + 1 }
+example : mList.Valid := ⟨by decide, by decide, by decide, by decide, by decide, by decide⟩
+example : Generated.Trans.datatype.metadata_encode 3 0 300 2 (2^63 - 2) (2^63) = encodeMeta mList :=
+  C19_translated_meta_codec.1 mList (by decide) (by decide) (by decide) (by decide) (by decide)
+example : Generated.Trans.datatype.decodeMetadata (Generated.Trans.datatype.metadata_encode 3 0 300 2 (2^63 - 2) (2^63))
+    = { dataType := 3, expire := 0, version := 300, size := 2, head := 2^63 - 2, tail := 2^63 } :=
+  C19_translated_meta_codec.2.2.1 mList ⟨by decide, by decide, by decide, by decide, by decide, by decide⟩
+#guard Generated.Trans.datatype.metadata_encode 3 0 300 2 (2^63 - 2) (2^63)
+  = ⟨#[3, 0, 0xd8, 0x04, 4, 0xfe, 0xff, 0xff, 0xff, 0xff, 0xff, 0xff, 0xff, 0x7f, 0x80, 0x80, 0x80, 0x80, 0x80, 0x80, 0x80, 0x80, 0x80, 0x01]⟩
+
+/-- **the five internal-key encoders as they stand in /repo** equal `hashKey`, `setKey`, `listKey`, `zmemKey`,
+    `zscoreKey` for keys / fields / members / score texts shorter than 2^60 bytes (`len` is an `int`; the sum of
+    the lengths must not wrap), versions that are non-negative `int64`s and every list index (the argument type
+    of the generated definition is `Nat`, the field is a `uint64`; `le64` writes its low 8 bytes).  The score text
+    `utils.Float64ToBytes(zk.score)` is an abstract parameter of the translation (floats are not translated):
+    the equality holds for every byte string in its place. -/
+theorem C19_translated_internal_keys :
+    (∀ (key field : ByteArray) (version : Nat), key.size < 2^60 → field.size < 2^60 → version < 2^63 →
+        Generated.Trans.datatype.hashInternalKey_encode key (version : Int) field = hashKey key version field) ∧
+    (∀ (key member : ByteArray) (version : Nat), key.size < 2^60 → member.size < 2^60 → version < 2^63 →
+        Generated.Trans.datatype.setInternalKey_encode key (version : Int) member = setKey key version member) ∧
+    (∀ (key : ByteArray) (version index : Nat), key.size < 2^60 → version < 2^63 →
+        Generated.Trans.datatype.listInternalKey_encode key (version : Int) index = listKey key version index) ∧
+    (∀ (key member : ByteArray) (version : Nat), key.size < 2^60 → member.size < 2^60 → version < 2^63 →
+        Generated.Trans.datatype.zsetInternalKey_encodeWithMember key (version : Int) member = zmemKey key version member) ∧
+    (∀ (score key member : ByteArray) (version : Nat), score.size < 2^60 → key.size < 2^60 → member.size < 2^60 →
+        version < 2^63 →
+        Generated.Trans.datatype.zsetInternalKey_encodeWithScore score key (version : Int) member
+          = zscoreKey key version score member) :=
+  ⟨fun key field version hk hf hv => TransEq.trans_hashInternalKey_encode_eq key field version hk hf hv,
+   fun key member version hk hm hv => TransEq.trans_setInternalKey_encode_eq key member version hk hm hv,
+   fun key version index hk hv => TransEq.trans_listInternalKey_encode_eq key version index hk hv,
+   fun key member version hk hm hv => TransEq.trans_zsetInternalKey_encodeWithMember_eq key member version hk hm hv,
+   fun score key member version hs hk hm hv =>
+     TransEq.trans_zsetInternalKey_encodeWithScore_eq score key member version hs hk hm hv⟩
+
+/-- non-vacuity: the keys of the demo histories above (`k1`, field / member `a`, score text "1.5", version 40) -/
+example : Generated.Trans.datatype.hashInternalKey_encode k1 40 a = ⟨#[0x6b, 0x31, 40, 0, 0, 0, 0, 0, 0, 0, 0x61]⟩ :=
+  (C19_translated_internal_keys.1 k1 a 40 (by decide) (by decide) (by decide)).trans (by decide)
+example : Generated.Trans.datatype.setInternalKey_encode k1 40 a
+    = ⟨#[0x6b, 0x31, 40, 0, 0, 0, 0, 0, 0, 0, 0x61, 1, 0, 0, 0]⟩ :=
+  (C19_translated_internal_keys.2.1 k1 a 40 (by decide) (by decide) (by decide)).trans (by decide)
+example : Generated.Trans.datatype.listInternalKey_encode k1 40 (initialListMark - 1)
+    = ⟨#[0x6b, 0x31, 40, 0, 0, 0, 0, 0, 0, 0, 0xfe, 0xff, 0xff, 0xff, 0xff, 0xff, 0xff, 0x7f]⟩ :=
+  (C19_translated_internal_keys.2.2.1 k1 40 _ (by decide) (by decide)).trans (by decide)
+example : Generated.Trans.datatype.zsetInternalKey_encodeWithMember k1 40 a
+    = ⟨#[0x6b, 0x31, 40, 0, 0, 0, 0, 0, 0, 0, 0x61]⟩ :=
+  (C19_translated_internal_keys.2.2.2.1 k1 a 40 (by decide) (by decide) (by decide)).trans (by decide)
+example : Generated.Trans.datatype.zsetInternalKey_encodeWithScore s15 k1 40 a
+    = ⟨#[0x6b, 0x31, 40, 0, 0, 0, 0, 0, 0, 0, 0x31, 0x2e, 0x35, 0x61, 1, 0, 0, 0]⟩ :=
+  (C19_translated_internal_keys.2.2.2.2 s15 k1 a 40 (by decide) (by decide) (by decide) (by decide)).trans (by decide)
+
+/-- **the string record as it stands in /repo** (`Set` / `Get` of `datatype/types.go`).
+    (1) For a non-nil value, `Set` hands `db.Put` the user key and the model's `encodeStr expire value`, with
+        `expire = now + ttl` (`0` without ttl), `clock` being whatever `time.Now().Add(·).UnixNano()` is, as long as
+        it maps this `ttl` to `now + ttl`; hence the model's `set` is the Go function's store update.
+    (2) On a record `enc` that the engine returns for `key`, `Get` returns what the model's `get` replies
+        (`Reply.bytes b ↦ (b, nil)`, `Reply.nil ↦ (nil, nil)`, `Reply.wrongType ↦ (nil, ErrWrongTypeOperation)`),
+        for every record on which the model does not predict a Go panic. -/
+theorem C19_translated_string_record :
+    (∀ (clock : Int → Int) (kv : KV) (key v : ByteArray) (now ttl : Nat), v.size < 2^60 → now + ttl < 2^63 →
+        (ttl ≠ 0 → clock (ttl : Int) = ((now + ttl : Nat) : Int)) → key.size ≠ 0 →
+        (set kv now key (some v) ttl).1
+          = kv.put (Generated.Trans.datatype.Set_put clock key v (ttl : Int)).1
+                   (Generated.Trans.datatype.Set_put clock key v (ttl : Int)).2) ∧
+    (∀ (db : ByteArray → ByteArray) (kv : KV) (key enc : ByteArray) (now : Nat), key.size ≠ 0 → kv.get key = some enc →
+        db key = enc → now < 2^63 → (get kv now key).2 ≠ .panic →
+        Generated.Trans.datatype.Get db (now : Int) key = TransEq.ofGetReply (get kv now key).2) :=
+  ⟨fun clock kv key v now ttl hv hnow hclock hkey => by
+     rw [TransEq.trans_Set_put_eq clock key v now ttl hv hnow hclock]
+     simp only [Datatype.set, if_neg hkey],
+   fun db kv key enc now hkey hget hdb hnow hnp => TransEq.trans_Get_eq db kv key enc now hkey hget hdb hnow hnp⟩
+
+/-- non-vacuity: `Set k1 v1` with a ttl of 5 ns at time 1000, and `Get` of that record at times 1004 and 1005 -/
+example (kv : KV) : (set kv 1000 k1 (some v1) 5).1
+    = kv.put k1 (Generated.Trans.datatype.Set_put (fun d => 1000 + d) k1 v1 5).2 :=
+  C19_translated_string_record.1 (fun d => 1000 + d) kv k1 v1 1000 5 (by decide) (by decide) (fun _ => rfl) (by decide)
+#guard (Generated.Trans.datatype.Set_put (fun d => 1000 + d) k1 v1 5).2 = ⟨#[0, 0xda, 0x0f, 1, 2, 3]⟩
+example : Generated.Trans.datatype.Get (fun _ => ⟨#[0, 0xda, 0x0f, 1, 2, 3]⟩) 1004 k1 = (v1, none) :=
+  (C19_translated_string_record.2 (fun _ => ⟨#[0, 0xda, 0x0f, 1, 2, 3]⟩) [(k1, ⟨#[0, 0xda, 0x0f, 1, 2, 3]⟩)] k1 _ 1004
+    (by decide) rfl rfl (by decide) (by decide)).trans (by decide)
+example : Generated.Trans.datatype.Get (fun _ => ⟨#[0, 0xda, 0x0f, 1, 2, 3]⟩) 1005 k1 = (ByteArray.empty, none) :=
+  (C19_translated_string_record.2 (fun _ => ⟨#[0, 0xda, 0x0f, 1, 2, 3]⟩) [(k1, ⟨#[0, 0xda, 0x0f, 1, 2, 3]⟩)] k1 _ 1005
+    (by decide) rfl rfl (by decide) (by decide)).trans (by decide)
 
 end XixiKV.C19
 
